@@ -371,11 +371,11 @@ ELEM_TY = {"vec": "int", "mat": "vec", "matlist": "mat", "nil": "int"}
 # ---- third batch (Np/NpZ3.v): dynamically typed values ------------------------------------------------------
 COQ_TY.update({"ix": "pyidx", "ixlist": "list pyidx", "slice": "pyslice", "pylist": "vec", "nda": "ndarr", "ndb": "ndbool",
                "spt": "sptz", "key": "pykey", "elem": "pyelem", "elist": "list pyelem", "kt": "ktz", "ktorseq": "kt_or_seq",
-               "shp": "pyshp", "ten3": "ten3"})
+               "shp": "pyshp", "ten3": "ten3", "rat": "pyrat", "ktclass": "unit", "sqres": "sq_result"})
 ELEM_TY.update({"ixlist": "ix", "pylist": "int", "elist": "elem"})
 # union type -> Python class name -> constructors of the Gallina inductive that stand for instances of that class
 UNION_CLASSES = {
-    "ix": {"int": ["IxInt"], "np.integer": ["IxInt"], "float": [], "slice": ["IxSlice"], "Sequence": ["IxSeq"],
+    "ix": {"int": ["IxInt"], "np.integer": ["IxInt"], "np.generic": ["IxInt"], "float": [], "slice": ["IxSlice"], "Sequence": ["IxSeq"],
            "list": ["IxSeq"], "np.ndarray": ["IxArr"], "tuple": []},
     "key": {"int": ["KInt"], "np.integer": ["KInt"], "float": [], "slice": ["KSlice"], "Sequence": ["KTuple", "KList"],
             "list": ["KList"], "np.ndarray": ["KArr"], "tuple": ["KTuple"]},
@@ -451,6 +451,9 @@ class IntTr:
         self.known_defaults = {}                 # translated function name -> {parameter name: default value node}
         self.guards = []                    # side conditions (index in range, divisor non-zero) of the statement being translated
         self.loops = []                     # stack of loop-carried variable lists (innermost last)
+        self.file_funcs = {}                # all functions / methods of the source file (properties read by the m4 rules)
+        self.known_coq = {}                 # translated function / method name -> Gallina name (env "coqname")
+        self.oracles = fenv.get("oracles", {})   # method name -> [argument types]: calls `self.m(..)` become applications of a parameter
 
     # -- guards: conditions under which evaluating the current statement's expressions raises ------------
     def guard(self, text):
@@ -476,6 +479,10 @@ class IntTr:
     def expr(self, e, cur):
         """cur: name -> (gallina text, current type). returns (text, type)"""
         d = ast.dump(e)
+        if "m4" in self.options:
+            r_ = self.m4_expr(e, cur)
+            if r_ is not None:
+                return r_
         if "dyn" in self.options:
             r_ = self.dyn_expr(e, cur)
             if r_ is not None:
@@ -1088,6 +1095,346 @@ class IntTr:
                 return f"(np_insert_col {m} {i} {v})", "mat"
         return None
 
+
+    # -- fourth batch (Np/NpZ4.v): whole methods of pyttb classes (option "m4") ---------------------------------
+    @staticmethod
+    def seq_kind(n):
+        """'tuple' / 'list' for an expression that is syntactically a Python tuple / list; None otherwise"""
+        if isinstance(n, ast.Call) and isinstance(n.func, ast.Name) and len(n.args) == 1 and not n.keywords:
+            if n.func.id == "tuple":
+                return "tuple"
+            if n.func.id in ("list", "sorted"):
+                return "list"
+        if isinstance(n, ast.Call) and isinstance(n.func, ast.Attribute) and n.func.attr == "tolist" and not n.args and not n.keywords:
+            return "list"
+        if isinstance(n, ast.List):
+            return "list"
+        if isinstance(n, ast.Tuple):
+            return "tuple"
+        return None
+
+    @staticmethod
+    def plain_slice(sl):
+        return isinstance(sl, ast.Slice) and sl.step is None
+
+    def slice_text(self, sl, cur):
+        """(mkslice lo hi None) for a[lo:hi] with integer bounds (either may be absent)"""
+        parts = []
+        for b in (sl.lower, sl.upper):
+            if b is None:
+                parts.append("None")
+            else:
+                t, ty = self.expr(b, cur)
+                if ty != "int":
+                    fail(sl, "slice bound")
+                parts.append(f"(Some {t})")
+        return f"(mkslice {parts[0]} {parts[1]} None)"
+
+    def m4_expr(self, e, cur):
+        """expression forms of the fourth batch; None = not one of them (the older rules apply)"""
+        if isinstance(e, ast.Attribute):
+            if isinstance(e.value, ast.Name) and e.value.id in cur and cur[e.value.id][1] == "kt" and e.attr in ("shape", "order"):
+                if e.attr == "order":
+                    of = self.file_funcs.get("ktensor.order")
+                    if of is None or [ast.dump(x) for x in strip_doc(of.body)] != [ast.dump(ast.parse("return 'F'").body[0])]:
+                        fail(e, "the property ktensor.order must be the constant 'F'")
+                    return "OrdF", "order"
+                return f"(kt_shape {cur[e.value.id][0]})", "vec"
+            if isinstance(e.value, ast.Name) and e.value.id in cur and cur[e.value.id][1] == "vec" and e.attr == "T":
+                return cur[e.value.id][0], "vec"       # the transpose of a 1-d array is the array itself
+            if isinstance(e.value, ast.Name) and e.value.id in cur and cur[e.value.id][1] == "spt" and e.attr == "vals":
+                return f"(spt_vals {cur[e.value.id][0]})", "vec"
+            return None
+        if isinstance(e, ast.Compare) and len(e.ops) == 1 and isinstance(e.ops[0], ast.NotEq) and isinstance(e.left, ast.Call) \
+                and isinstance(e.left.func, ast.Name) and e.left.func.id == "round" and len(e.left.args) == 1 and not e.left.keywords \
+                and isinstance(e.left.args[0], ast.Name) and ast.dump(e.left.args[0]) == ast.dump(e.comparators[0]):
+            t, ty = self.expr(e.comparators[0], cur)
+            if ty != "rat":
+                fail(e, "round(x) != x")
+            return f"(negb (rat_is_int {t}))", "bool"
+        if isinstance(e, ast.Compare) and len(e.ops) == 1:
+            op, lhs, rhs = e.ops[0], e.left, e.comparators[0]
+            if isinstance(op, (ast.Is, ast.IsNot)) and isinstance(rhs, ast.Constant) and rhs.value is None \
+                    and isinstance(lhs, ast.Name) and lhs.id in cur and cur[lhs.id][1] == "ix":
+                t = f"(ix_is_none {cur[lhs.id][0]})"
+                return (t if isinstance(op, ast.Is) else f"(negb {t})"), "bool"
+            if isinstance(op, (ast.Eq, ast.NotEq)) and (self.seq_kind(lhs) or self.seq_kind(rhs)):
+                # == between two Python sequences of ints: equal only for the same class (tuple / list) and the same items
+                if self.seq_kind(lhs) != self.seq_kind(rhs):
+                    fail(e, "comparison of a tuple with a list (or with a value of unknown class)")
+                l, tl = self.expr(lhs, cur)
+                r, tr = self.expr(rhs, cur)
+                if tl != "pylist" or tr != "pylist":
+                    fail(e, "sequence comparison types")
+                t = f"(zlist_eqb {l} {r})"
+                return (t if isinstance(op, ast.Eq) else f"(negb {t})"), "bool"
+            if isinstance(op, (ast.Eq, ast.NotEq)) and all(isinstance(x, ast.Call) and ast.dump(x.func) in (dump("np.sort"), dump("np.arange"))
+                                                           for x in (lhs, rhs)):
+                # element-wise comparison of two freshly built 1-d arrays
+                l, tl = self.expr(lhs, cur)
+                r, tr = self.expr(rhs, cur)
+                if tl != "vec" or tr != "vec":
+                    fail(e, "element-wise ==")
+                self.guard(f"(np_bcast_ok {l} {r})")
+                t = f"(np_eq_vv {l} {r})"
+                return (t if isinstance(op, ast.Eq) else f"(map negb {t})"), "bvec"
+            if isinstance(op, ast.Gt) and isinstance(lhs, ast.Name) and lhs.id in cur and cur[lhs.id][1] == "vec":
+                r, tr = self.expr(rhs, cur)
+                if tr != "int":
+                    fail(e, "array > int")
+                return f"(np_gt_s {cur[lhs.id][0]} {r})", "bvec"
+            if isinstance(op, (ast.LtE, ast.Lt)) and isinstance(lhs, ast.Subscript) and isinstance(rhs, ast.Subscript):
+                l, tl = self.expr(lhs, cur)
+                r, tr = self.expr(rhs, cur)
+                if tl == "vec" and tr == "vec":
+                    self.guard(f"(np_bcast_ok {l} {r})")
+                    return f"({'np_le_vv' if isinstance(op, ast.LtE) else 'np_lt_vv'} {l} {r})", "bvec"
+                fail(e, "element-wise <= / <")
+            return None
+        if isinstance(e, ast.Constant) and isinstance(e.value, float) and e.value == int(e.value) and "float_consts" in self.options:
+            return (f"{int(e.value)}" if e.value >= 0 else f"({int(e.value)})"), "int"       # values are integer-valued floats
+        if isinstance(e, ast.BinOp) and isinstance(e.op, ast.Div):
+            l, tl = self.expr(e.left, cur)
+            r, tr = self.expr(e.right, cur)
+            if tl != "int" or tr != "int":
+                fail(e, "true division")
+            self.guard(f"(negb ({r} =? 0))")          # ZeroDivisionError
+            return f"(rat_div {l} {r})", "rat"
+        if isinstance(e, ast.UnaryOp) and isinstance(e.op, ast.USub):
+            t, ty = self.expr(e.operand, cur)
+            if ty == "vec":
+                return f"(map Z.opp {t})", "vec"
+            if ty == "int":
+                return f"(- {t})", "int"
+            fail(e, "neg")
+        if isinstance(e, ast.ListComp):
+            if len(e.generators) != 1 or e.generators[0].ifs or e.generators[0].is_async \
+                    or not isinstance(e.generators[0].target, ast.Name):
+                fail(e, "list comprehension form")
+            g = e.generators[0]
+            x = g.target.id
+            l, tl_ = self.expr(g.iter, cur)
+            ety = ELEM_TY.get(tl_)
+            if ety is None or x in cur:
+                fail(e, "list comprehension iterable / bound-variable capture")
+            self.fresh += 1
+            xv = f"{x}_{self.fresh}"
+            c2 = dict(cur)
+            c2[x] = (xv, ety)
+            (b, tb), gs = self.scoped(lambda: self.expr(e.elt, c2))
+            rty = {"int": "pylist", "mat": "matlist"}.get(tb)
+            if rty is None:
+                fail(e, "list comprehension element type")
+            if gs:        # the element expression may raise for some x: every x must pass
+                self.guard(f"(forallb (fun {xv} => {self.conj(gs)}) {l})")
+            return f"(map (fun {xv} => {b}) {l})", rty
+        if isinstance(e, ast.Subscript):
+            ci = self.col_index(e.slice)
+            if ci is not None:
+                i, ti = self.expr(ci, cur)
+                if ti in ("vec", "ix"):
+                    m, tm = self.expr(e.value, cur)
+                    if tm != "mat":
+                        fail(e, "column gather")
+                    if ti == "ix":
+                        self.guard(f"(ix_len_ok {i})")
+                        i = f"(ix_seq {i})"
+                    self.guard(f"(np_cols_ok {m} {i})")
+                    return f"(np_cols {m} {i})", "mat"
+                return None
+            if isinstance(e.slice, ast.Slice):
+                sl = e.slice
+                if sl.lower is None and sl.upper is None and sl.step is not None and ast.dump(sl.step) == dump("-1"):
+                    a, ta = self.expr(e.value, cur)
+                    if ta not in ("vec", "pylist"):
+                        fail(e, "[::-1]")
+                    return f"(rev {a})", ta
+                if self.plain_slice(sl) and not (sl.upper is None and isinstance(sl.lower, ast.Constant) and sl.lower.value == 1):
+                    a, ta = self.expr(e.value, cur)
+                    if ta not in ("vec", "pylist"):
+                        fail(e, "slice of a non-vector")
+                    return f"(py_slice 0 {a} {self.slice_text(sl, cur)})", ta
+                return None
+            if isinstance(e.slice, ast.Constant) and e.slice.value == 0 and isinstance(e.value, ast.Call) \
+                    and ast.dump(e.value.func) == dump("np.where") and len(e.value.args) == 1 and not e.value.keywords:
+                b, tb = self.expr(e.value.args[0], cur)
+                if tb != "bvec":
+                    fail(e, "np.where(mask)[0]")
+                return f"(np_where1 {b})", "vec"
+            if isinstance(e.slice, ast.Tuple) and len(e.slice.elts) == 2 and not any(isinstance(x, ast.Slice) for x in e.slice.elts):
+                m, tm = self.expr(e.value, cur)
+                v, tv = self.expr(e.slice.elts[0], cur)
+                i, ti = self.expr(e.slice.elts[1], cur)
+                if (tm, tv, ti) != ("mat", "vec", "int"):
+                    fail(e, "M[rows, column]")
+                self.guard(f"(np_col_ok {m} {i})")
+                self.guard(f"(np_take_ok (np_col {m} {i}) {v})")
+                return f"(np_take 0 (np_col {m} {i}) {v})", "vec"
+            if isinstance(e.slice, (ast.Tuple, ast.Constant)):
+                return None
+            i, ti = self.expr(e.slice, cur)
+            if ti == "vec" and isinstance(e.value, ast.Name) and e.value.id in cur and cur[e.value.id][1] == "mat":
+                a = cur[e.value.id][0]
+                self.guard(f"(np_take_ok {a} {i})")
+                return f"(np_take [] {a} {i})", "mat"          # rows picked by an index vector
+            if ti == "ix":
+                a, ta = self.expr(e.value, cur)
+                if ta == "pylist" and isinstance(e.value, ast.Call) and isinstance(e.value.func, ast.Name) and e.value.func.id == "range":
+                    # range(a, b)[key]: only a slice key yields a sequence (an int key a number, anything else raises)
+                    self.guard(f"(ix_is_slice {i})")
+                    self.guard(f"(slice_ok (ix_slice {i}))")
+                    return f"(py_slice 0 {a} (ix_slice {i}))", "pylist"
+                if ta != "vec":
+                    fail(e, "index by a sequence")
+                self.guard(f"(ix_len_ok {i})")
+                self.guard(f"(np_take_ok {a} (ix_seq {i}))")
+                return f"(np_take 0 {a} (ix_seq {i}))", "vec"
+            return None
+        if isinstance(e, ast.Call):
+            f = e.func
+            kw = {k.arg: k.value for k in e.keywords}
+            nm = f.id if isinstance(f, ast.Name) else None
+            if nm in ("tuple", "list") and len(e.args) == 1 and not kw and isinstance(e.args[0], ast.Call) \
+                    and ((isinstance(e.args[0].func, ast.Name) and e.args[0].func.id in ("range", "sorted"))
+                         or (isinstance(e.args[0].func, ast.Attribute) and e.args[0].func.attr == "tolist")):
+                t, ty = self.expr(e.args[0], cur)
+                if ty not in ("vec", "pylist"):
+                    fail(e, nm + "()")
+                return t, "pylist"
+            if nm == "sorted" and len(e.args) == 1 and not kw:
+                t, ty = self.expr(e.args[0], cur)
+                if ty not in ("vec", "pylist"):
+                    fail(e, "sorted()")
+                return f"(np_sort {t})", "pylist"
+            if nm == "sum" and len(e.args) == 1 and not kw:
+                t, ty = self.expr(e.args[0], cur)
+                if ty not in ("vec", "pylist"):
+                    fail(e, "sum()")
+                return f"(zsum {t})", "int"
+            if isinstance(f, ast.Attribute) and f.attr == "tolist" and not e.args and not kw:
+                t, ty = self.expr(f.value, cur)
+                if ty != "vec":
+                    fail(e, ".tolist()")
+                return t, "pylist"
+            if isinstance(f, ast.Attribute) and f.attr == "reshape" and len(e.args) == 1 and not kw:
+                t, ty = self.expr(f.value, cur)
+                n, tn = self.expr(e.args[0], cur)
+                if ty != "vec" or tn != "int":
+                    fail(e, ".reshape(n)")
+                self.guard(f"(zlen {t} =? {n})")
+                return t, "vec"
+            if isinstance(f, ast.Attribute) and f.attr == "item" and not e.args and not kw:
+                t, ty = self.expr(f.value, cur)
+                if ty != "vec":
+                    fail(e, ".item()")
+                self.guard(f"(zlen {t} =? 1)")        # ValueError unless the array has exactly one element
+                return f"(znth 0 {t} 0)", "int"
+            if isinstance(f, ast.Attribute) and f.attr == "copy" and not e.args and not kw:
+                t, ty = self.expr(f.value, cur)
+                if ty == "spt":
+                    # sptensor.copy() goes through the constructor (checked to be `return ttb.sptensor(self.subs, self.vals, self.shape, copy=True)`)
+                    cf = self.file_funcs.get("sptensor.copy")
+                    if cf is None or [ast.dump(x) for x in strip_doc(cf.body)] != \
+                            [ast.dump(ast.parse("return ttb.sptensor(self.subs, self.vals, self.shape, copy=True)").body[0])]:
+                        fail(e, "sptensor.copy must be the constructor call on the three fields")
+                    self.guard(f"(spt_make_ok (spt_subs {t}) (spt_vals {t}) (spt_shape {t}))")
+                    return t, "spt"
+                if ty in ("vec", "mat", "kt", "matlist"):
+                    return t, ty              # x.copy(): values are immutable in the model
+                fail(e, ".copy()")
+            if nm == "int" and len(e.args) == 1 and not kw and isinstance(e.args[0], ast.Name) and e.args[0].id in cur \
+                    and cur[e.args[0].id][1] == "rat":
+                return f"(rat_int {cur[e.args[0].id][0]})", "int"
+            if nm in self.known and nm in ("isvector", "isrow") and len(e.args) == 1 and not kw and len(self.known[nm][1]) == 1 \
+                    and self.known[nm][1][0] == "bool":
+                # a translated predicate of pyttb_utils called inside an expression: an Err of the callee is an Err here
+                t, ty = self.expr(e.args[0], cur)
+                a_ = self.coerce(t, ty, self.known[nm][0][0], e)
+                self.guard(f"(is_ok ({nm} {a_}))")
+                return f"(res_get false ({nm} {a_}))", "bool"
+            if nm == "cast" and len(e.args) == 2 and not kw:
+                return self.expr(e.args[1], cur)          # typing.cast is the identity at run time
+            if ast.dump(f) in (dump("ttb.sptensor"), dump("sptensor")) and len(e.args) == 3 and (not kw or (set(kw) == {"copy"}
+                    and isinstance(kw["copy"], ast.Constant) and isinstance(kw["copy"].value, bool))):
+                a, ta = self.expr(e.args[0], cur)
+                b, tb = self.expr(e.args[1], cur)
+                c, tc = self.expr(e.args[2], cur)
+                a = self.coerce(a, ta, "mat", e)
+                b = self.coerce(b, tb, "vec", e)
+                c = self.coerce(c, tc, "vec", e)
+                self.guard(f"(spt_make_ok {a} {b} {c})")       # the checks of sptensor.__init__
+                return f"(spt_make {a} {b} {c})", "spt"
+            if ast.dump(f) == dump("np.isin") and len(e.args) == 2 and not kw:
+                a, ta = self.expr(e.args[0], cur)
+                b, tb = self.expr(e.args[1], cur)
+                if ta != "vec":
+                    fail(e, "np.isin")
+                if tb == "ix":
+                    return f"(np_isin_ix {a} {b})", "bvec"
+                if tb in ("vec", "pylist"):
+                    return f"(np_isin {a} {b})", "bvec"
+                fail(e, "np.isin")
+            if ast.dump(f) in (dump("ttb.ktensor"), dump("cls")) and len(e.args) == 2 and (not kw or (set(kw) == {"copy"}
+                    and isinstance(kw["copy"], ast.Constant) and isinstance(kw["copy"].value, bool))):
+                if ast.dump(f) == dump("cls") and self.types.get("cls") != "ktclass":
+                    fail(e, "cls(...)")
+                a, ta = self.expr(e.args[0], cur)
+                b, tb = self.expr(e.args[1], cur)
+                a = self.coerce(a, ta, "matlist", e)
+                b = self.coerce(b, tb, "vec", e)
+                self.guard(f"(kt_make_ok {a} {b})")        # the checks of ktensor.__init__ (copy= only decides aliasing)
+                return f"(kt_make {a} {b})", "kt"
+            if isinstance(f, ast.Attribute) and isinstance(f.value, ast.Name) and f.value.id == "np" and "np" not in cur:
+                fn = f.attr
+                if fn in ("asarray", "array") and len(e.args) == 1 and not kw:
+                    if fn == "array" and not isinstance(e.args[0], ast.List):
+                        return None
+                    t, ty = self.expr(e.args[0], cur)
+                    if ty == "ix":
+                        self.guard(f"(ix_len_ok {t})")
+                        return f"(ix_seq {t})", "vec"
+                    if ty in ("pylist", "vec"):
+                        return t, "vec"
+                    if ty == "nil":
+                        return "[]", "nil"
+                    fail(e, "np." + fn)
+                if fn == "ones" and not e.args and set(kw) <= {"shape", "dtype"} and "shape" in kw and isinstance(kw["shape"], ast.Tuple) \
+                        and len(kw["shape"].elts) == 2 and ast.dump(kw["shape"].elts[1]) == dump("1"):
+                    t, ty = self.expr(kw["shape"].elts[0], cur)          # an n x 1 column of ones (a value array): the model keeps it 1-d
+                    if ty != "int":
+                        fail(e, "np.ones(shape=(n, 1))")
+                    self.guard(f"(0 <=? {t})")
+                    return f"(np_full {t} 1)", "vec"
+                if fn == "ones" and len(e.args) == 1 and not kw and not isinstance(e.args[0], ast.Tuple):
+                    t, ty = self.expr(e.args[0], cur)
+                    if ty != "int":
+                        fail(e, "np.ones(n)")
+                    self.guard(f"(0 <=? {t})")
+                    return f"(np_full {t} 1)", "vec"
+                if fn == "ones_like" and len(e.args) == 1 and not kw:
+                    t, ty = self.expr(e.args[0], cur)
+                    if ty != "vec":
+                        fail(e, "np.ones_like")
+                    return f"(map (fun _ => 1) {t})", "vec"
+                if fn == "zeros" and len(e.args) == 1 and not kw:
+                    t, ty = self.expr(e.args[0], cur)
+                    if ty != "int":
+                        fail(e, "np.zeros(n)")
+                    self.guard(f"(np_zeros_ok {t})")
+                    return f"(np_zeros {t})", "vec"
+                if fn == "reshape" and len(e.args) == 2 and set(kw) == {"order"} and isinstance(e.args[1], ast.Tuple) \
+                        and len(e.args[1].elts) == 2:
+                    v, tv = self.expr(e.args[0], cur)
+                    a, ta = self.expr(e.args[1].elts[0], cur)
+                    b, tb = self.expr(e.args[1].elts[1], cur)
+                    o, to = self.expr(kw["order"], cur)
+                    if (tv, ta, tb, to) != ("vec", "int", "int", "order"):
+                        fail(e, "np.reshape(v, (a, b), order=)")
+                    self.guard(f"(np_reshape2_ok {v} {a} {b})")
+                    return f"(np_reshape2 {o} {v} {a} {b})", "mat"
+            return None
+        return None
+
     @staticmethod
     def _shape0_name(e):
         """X for a call of the form f(shape=X.shape[0], ...) else ''"""
@@ -1306,6 +1653,9 @@ class IntTr:
                         elif isinstance(n, ast.Subscript) and "dyn" in self.options and self.store_root(n) is not None:
                             if self.store_root(n) not in out:
                                 out.append(self.store_root(n))
+                        elif isinstance(n, ast.Attribute) and "m4" in self.options and isinstance(n.value, ast.Name):
+                            if n.value.id not in out:
+                                out.append(n.value.id)
             elif isinstance(s, ast.Expr) and self.mutator(s) is not None:
                 if self.mutator(s)[0] not in out:
                     out.append(self.mutator(s)[0])
@@ -1315,6 +1665,14 @@ class IntTr:
             elif isinstance(s, ast.AugAssign) and isinstance(s.target, ast.Name):
                 if s.target.id not in out:
                     out.append(s.target.id)
+            elif isinstance(s, ast.AugAssign) and "m4" in self.options and self.store_root(s.target) is not None:
+                if self.store_root(s.target) not in out:
+                    out.append(self.store_root(s.target))
+            elif isinstance(s, ast.For) and "m4" in self.options and not s.orelse:
+                tg = {x.id for x in ast.walk(s.target) if isinstance(x, ast.Name)}
+                for n in self.assigned(s.body):
+                    if n not in out and n not in tg:
+                        out.append(n)
             elif isinstance(s, ast.If):
                 for n in self.assigned(s.body) + self.assigned(s.orelse):
                     if n not in out:
@@ -1333,7 +1691,8 @@ class IntTr:
         return None
 
     MUTATORS = {("kt", "redistribute"): ("kt_redistribute", "kt_redistribute_ok", ["int"]),
-                ("matlist", "append"): ("list_append", None, ["mat"])}
+                ("matlist", "append"): ("list_append", None, ["mat"]), ("vec", "append"): ("list_append", None, ["int"]),
+                ("vec", "fill"): ("np_fill", None, ["int"])}
 
     @staticmethod
     def mutator(s):
@@ -1395,8 +1754,12 @@ class IntTr:
             return text
         if ty == "nil" and want == "matlist":
             return "(@nil mat)"
+        if ty == "vec" and want == "nda" and "m4" in self.options:
+            return f"(nd_of_vec {text})"          # a 1-d float array handed to a helper that inspects shape / dtype
         if (ty, want) in UNION_INJ:
             return f"({UNION_INJ[(ty, want)]} {text})"
+        if want == "sqres" and ty in ("spt", "int"):
+            return f"({'SqTensor' if ty == 'spt' else 'SqScalar'} {text})"       # squeeze returns a tensor or a number
         fail(node, f"cannot coerce {ty} to {want}")
 
     def bind_name(self, name, text, ty, cur, node):
@@ -1536,6 +1899,10 @@ class IntTr:
         s, rest = stmts[0], stmts[1:]
         if isinstance(s, ast.Expr) and isinstance(s.value, ast.Constant):
             return self.block(rest, cur, tail, live)      # stray string
+        if "m4" in self.options:
+            r_ = self.m4_stmt(s, rest, cur, tail, live)
+            if r_ is not None:
+                return r_
         if isinstance(s, ast.Break):
             if not self.loops:
                 fail(s, "break outside a loop")
@@ -1631,6 +1998,111 @@ class IntTr:
         if isinstance(s, ast.If):
             return self.if_(s, rest, cur, tail, live)
         fail(s, "statement")
+
+
+    @staticmethod
+    def is_warn(s):
+        return isinstance(s, ast.Expr) and isinstance(s.value, ast.Call) and ast.dump(s.value.func) == dump("warnings.warn")
+
+    def m4_stmt(self, s, rest, cur, tail, live):
+        """statement forms of the fourth batch; None = not one of them"""
+        if self.is_warn(s):
+            return self.block(rest, cur, tail, live)           # a warning has no effect on values
+        if isinstance(s, ast.If) and not s.orelse and s.body and all(self.is_warn(x) for x in s.body):
+            (t, ty), gs = self.scoped(lambda: self.expr(s.test, cur))
+            if ty != "bool" or gs:
+                fail(s, "test of a warning-only branch (must be a total boolean expression)")
+            return self.block(rest, cur, tail, live)
+        if isinstance(s, ast.Return) and s.value is None and "returns_self" in self.options:
+            if self.loops:
+                fail(s, "return inside a loop body")
+            return f"Ok {cur['self'][0]}"
+        if isinstance(s, ast.Expr) and self.mutator(s) is not None and self.mutator(s)[1] in self.oracles:
+            name, meth, args = self.mutator(s)
+            if name not in cur or cur[name][1] != "kt" or name != "self":
+                fail(s, "oracle method call")
+            ptys = self.oracles[meth]
+            if len(args) != len(ptys):
+                fail(s, "oracle call arity")
+            ats = []
+            for a, want in zip(args, ptys):
+                t, ty = self.expr(a, cur)
+                ats.append(self.coerce(t, ty, want, s))
+            self.fresh += 1
+            v = f"{name}_{self.fresh}"
+            c2 = dict(cur)
+            c2[name] = (v, "kt")
+            return f"bind ({meth}_ {cur[name][0]}{''.join(' ' + a for a in ats)}) (fun {v} =>\n" + self.block(rest, c2, tail, live) + ")"
+        if isinstance(s, ast.Assign) and len(s.targets) == 1 and isinstance(s.targets[0], ast.Attribute) \
+                and isinstance(s.targets[0].value, ast.Name) and s.targets[0].value.id in cur \
+                and cur[s.targets[0].value.id][1] == "kt" and s.targets[0].attr == "weights":
+            name = s.targets[0].value.id
+            v, tv = self.expr(s.value, cur)
+            if tv != "vec":
+                fail(s, "store into .weights")
+            pre, cur2 = self.bind_name(name, f"(kt_set_weights {cur[name][0]} {v})", "kt", cur, s)
+            return pre + self.block(rest, cur2, tail, live)
+        if isinstance(s, ast.Assign) and len(s.targets) == 1 and isinstance(s.targets[0], ast.Name) and isinstance(s.value, ast.Call) \
+                and not s.value.keywords and not any(isinstance(x, ast.Starred) for x in s.value.args):
+            v = s.value
+            callee, recv = None, None
+            if isinstance(v.func, ast.Name) and v.func.id in self.known and v.func.id in self.known_coq:
+                callee = v.func.id
+            elif isinstance(v.func, ast.Attribute) and isinstance(v.func.value, ast.Name) and v.func.value.id == "self" \
+                    and "self" in cur and cur["self"][1] == "spt" and ("sptensor." + v.func.attr) in self.known_coq:
+                callee, recv = "sptensor." + v.func.attr, cur["self"][0]
+            if callee is not None and len(self.known[callee][1]) == 1:
+                ptys, rtys = self.known[callee]
+                given = ([recv] if recv is not None else [])
+                argn = list(v.args)
+                if len(given) + len(argn) != len(ptys):
+                    fail(s, "known call arity")
+                ats = list(given)
+                for a_, want in zip(argn, ptys[len(given):]):
+                    t, ty = self.expr(a_, cur)
+                    ats.append(self.coerce(t, ty, want, s))
+                name = s.targets[0].id
+                if self.types.get(name) != rtys[0]:
+                    fail(s, f"result type of {name}")
+                self.fresh += 1
+                vn = f"{name}_{self.fresh}"
+                c2 = dict(cur)
+                c2[name] = (vn, rtys[0])
+                return f"bind ({self.known_coq[callee]} {' '.join(ats)}) (fun {vn} =>\n" + self.block(rest, c2, tail, live) + ")"
+        tgt = s.targets[0] if isinstance(s, ast.Assign) and len(s.targets) == 1 else (s.target if isinstance(s, ast.AugAssign) else None)
+        if tgt is not None and isinstance(tgt, ast.Subscript) and isinstance(tgt.value, ast.Attribute) \
+                and tgt.value.attr == "factor_matrices" and isinstance(tgt.value.value, ast.Name) and tgt.value.value.id in cur \
+                and cur[tgt.value.value.id][1] == "kt" and not isinstance(tgt.slice, (ast.Slice, ast.Tuple)):
+            # X.factor_matrices[i] = M      /      X.factor_matrices[i] *= w   (columns scaled by the vector w)
+            name = tgt.value.value.id
+            k = cur[name][0]
+            i, ti = self.expr(tgt.slice, cur)
+            v, tv = self.expr(s.value, cur)
+            if ti != "int":
+                fail(s, "factor index")
+            self.guard(f"(idx_ok (kt_factors {k}) {i})")
+            if isinstance(s, ast.Assign) and tv == "mat":
+                txt = f"(kt_set_factor {k} {i} {v})"
+            elif isinstance(s, ast.AugAssign) and isinstance(s.op, ast.Mult) and tv == "vec":
+                self.guard(f"(np_mul_cols_ok (znth [] (kt_factors {k}) {i}) {v})")
+                txt = f"(kt_set_factor {k} {i} (np_mul_cols (znth [] (kt_factors {k}) {i}) {v}))"
+            else:
+                fail(s, "store into a factor matrix")
+            pre, cur2 = self.bind_name(name, txt, "kt", cur, s)
+            return pre + self.block(rest, cur2, tail, live)
+        if isinstance(s, ast.Assign) and len(s.targets) == 1 and isinstance(s.targets[0], ast.Subscript) \
+                and isinstance(s.targets[0].value, ast.Name) and self.plain_slice(s.targets[0].slice):
+            # x[a:b] = v
+            name = s.targets[0].value.id
+            a, ta = self.expr(s.targets[0].value, cur)
+            v, tv = self.expr(s.value, cur)
+            if ta != "vec" or tv != "vec":
+                fail(s, "slice store")
+            sl = self.slice_text(s.targets[0].slice, cur)
+            self.guard(f"(np_set_slice_ok {a} {sl} {v})")
+            pre, cur2 = self.bind_name(name, f"(np_set_slice {a} {sl} {v})", "vec", cur, s)
+            return pre + self.block(rest, cur2, tail, live)
+        return None
 
     def assign(self, s, rest, cur, tail, live):
         tgt = s.targets[0]
@@ -2004,10 +2476,14 @@ class IntTr:
             sig.append(f"({p} : {coq_ty(self.types[p])})")
         rty = " * ".join(coq_ty(t) for t in self.ret)
         body = strip_doc(f.body)
+        for o_, otys in self.oracles.items():      # methods called on self that are not translated: parameters of the definition
+            sig.insert(0, f"({o_}_ : ktz -> {' '.join(coq_ty(t) + ' -> ' for t in otys)}res ktz)")
 
         def tail(c):
+            if "returns_self" in self.options:     # a method that updates self in place and returns None: the model returns self
+                return f"Ok {c['self'][0]}"
             fail(f, "control falls off the end of the function")
-        txt = self.block(body, cur, tail)
+        txt = self.block(body, cur, tail, frozenset({"self"}) if "returns_self" in self.options else frozenset())
         return f"Definition {fenv.get('coqname', f.name)} {' '.join(sig)} : res ({rty}) :=\n{txt}.\n"
 
 
@@ -2040,6 +2516,7 @@ def gen_utils(src_root, envpath, key="utils", title="pyttb/pyttb_utils.py", impo
     emitted = []
     known_names = {}
     known_defaults = {}
+    known_coq = {}
     for k2 in extern:        # functions translated into an imported unit: callable from this one
         for unit in env[k2]:
             path = os.path.join(src_root, unit["file"])
@@ -2050,6 +2527,7 @@ def gen_utils(src_root, envpath, key="utils", title="pyttb/pyttb_utils.py", impo
             known[unit["name"]] = ([unit["types"][a] for a in IntTr.params(trees[path][unit["name"]])], unit["returns"])
             known_names[unit["name"]] = param_names(trees[path][unit["name"]])
             known_defaults[unit["name"]] = param_defaults(trees[path][unit["name"]])
+            known_coq[unit["name"]] = unit.get("coqname", unit["name"])
     for unit in env[key]:
         path = os.path.join(src_root, unit["file"])
         if path not in trees:
@@ -2070,12 +2548,15 @@ def gen_utils(src_root, envpath, key="utils", title="pyttb/pyttb_utils.py", impo
         tr = IntTr(unit, known, {en: info[path][0][en] for en in unit.get("enums", [])}, info[path][1])
         tr.known_names = known_names
         tr.known_defaults = known_defaults
+        tr.file_funcs = funcs
+        tr.known_coq = known_coq
         # defaults: only the ones declared in the env are accepted (parameter fixed to its default is NOT done:
         # every parameter stays a parameter of the Gallina function)
         out.append(tr.func(f, unit))
         known[name] = ([unit["types"][a] for a in IntTr.params(f)], unit["returns"])
         known_names[name] = param_names(f)
         known_defaults[name] = param_defaults(f)
+        known_coq[name] = unit.get("coqname", name)
         names.append(name)
     return "\n".join(out) + "\n", names
 
@@ -2114,6 +2595,19 @@ def main():
                                                        "Np.NpZ Np.NpZ2 Np.NpZ3 Np.NpZ3c Np.NpZ3d Gen.GenKernels", extern=("kernels",))),
                      ("GenMethods3", lambda: gen_utils(src, envp, "methods3", "pyttb/ktensor.py (ktensor.redistribute; `self` is a record "
                                                        "parameter that the method updates and returns)", "Np.NpZ Np.NpZ2 Np.NpZ3 Np.NpZ3e")),
+                     ("GenKtensor4", lambda: gen_utils(src, envp, "ktensor4", "pyttb/ktensor.py (whole methods: permute, extract, arrange, "
+                                                       "tovec, update; `self` is a record parameter; methods called on self that are "
+                                                       "not translated are parameters)", "Np.NpZ Np.NpZ2 Np.NpZ3 Np.NpZ3c Np.NpZ3d Np.NpZ3e Np.NpZ4")),
+                     ("GenSptensor4", lambda: gen_utils(src, envp, "sptensor4", "pyttb/sptensor.py (whole methods: ones, permute, subdims; "
+                                                        "`self` is a record parameter)", "Np.NpZ Np.NpZ2 Np.NpZ3 Np.NpZ3c Np.NpZ3d Np.NpZ3e Np.NpZ4 Np.NpZ4b")),
+                     ("GenKtensor4b", lambda: gen_utils(src, envp, "ktensor4b", "pyttb/ktensor.py (classmethod from_vector; calls the "
+                                                        "generated isvector / isrow)", "Np.NpZ Np.NpZ2 Np.NpZ3 Np.NpZ3c Np.NpZ3d Np.NpZ3e Np.NpZ4 Np.NpZ4c "
+                                                        "Gen.GenUtils3", extern=("utils3",))),
+                     ("GenSptensor4b", lambda: gen_utils(src, envp, "sptensor4b", "pyttb/sptensor.py (sptensor.squeeze: returns a tensor or a "
+                                                         "number)", "Np.NpZ Np.NpZ2 Np.NpZ3 Np.NpZ3c Np.NpZ3d Np.NpZ3e Np.NpZ4 Np.NpZ4b Np.NpZ4d")),
+                     ("GenSptensor4c", lambda: gen_utils(src, envp, "sptensor4c", "pyttb/sptensor.py (sptensor.logical_not; calls the generated "
+                                                         "sptensor.allsubs and tt_setdiff_rows)", "Np.NpZ Np.NpZ2 Np.NpZ3 Np.NpZ3c Np.NpZ3d Np.NpZ3e "
+                                                         "Np.NpZ4 Np.NpZ4b Gen.GenUtils Gen.GenKernels Gen.GenMethods2", extern=("utils", "methods2"))),
                      ("GenMethods", lambda: gen_utils(src, envp, "methods", "simple methods / properties of pyttb classes "
                                                       "(`self` is a parameter: a record of the fields the method reads)",
                                                       "Np.NpZ Np.NpZ2 Np.NpZ3"))):
